@@ -73,7 +73,7 @@ def hexVal (c : Char) : Nat :=
 def parseHex (s : String) : Nat := s.foldl (fun a c => a * 16 + hexVal c) 0
 def toHex (n : Nat) : String := String.ofList (Nat.toDigits 16 n)
 
-def showBeat (b : Beat) : String := s!"{toHex b.data},{if b.eop then 1 else 0}{if b.sop then 1 else 0},{toHex b.aux}"
+def showBeat (b : Beat) : String := s!"{toHex b.data},{if b.eop then 1 else 0}{if b.sop then 1 else 0},{toHex b.aux},be={toHex b.be}"
 
 def words (l : String) : List String := (l.trimAscii.toString.splitOn " ").filter (· ≠ "")
 
@@ -82,12 +82,13 @@ def kv (ws : List String) (k : String) : Option String :=
 
 def parseSig (w : String) : Sig :=
   match w.splitOn "," with
-  | [vr, d, es, m] =>
+  | vr :: d :: es :: m :: rest =>
+    let be := rest.headD "0"
     let c := vr.toList
     let v := c.getD 0 '0'; let r := c.getD 1 '0'
     let e := es.toList.getD 0 '0'; let s := es.toList.getD 1 '0'
-    let und := v == 'u' || r == 'u' || (v == '1' && (d == "u" || m == "u" || e == 'u' || s == 'u'))
-    ⟨v == '1', r == '1', ⟨parseHex d, e == '1', s == '1', parseHex m⟩, und⟩
+    let und := v == 'u' || r == 'u' || (v == '1' && (d == "u" || m == "u" || be == "u" || e == 'u' || s == 'u'))
+    ⟨v == '1', r == '1', ⟨parseHex d, e == '1', s == '1', parseHex m, parseHex be⟩, und⟩
   | _ => ⟨false, false, Beat.zero, true⟩
 
 def parseDesc (ws : List String) : Option Desc :=
@@ -100,8 +101,8 @@ def parseDesc (ws : List String) : Option Desc :=
   | _ :: _ :: "stall" :: _ => some .stall
   | _ :: _ :: "dly" :: n :: _ => some (.dly n.toNat!)
   | _ :: _ :: "fifo" :: d :: l :: ft :: _ => some (.fifo d.toNat! l.toNat! (ft == "1"))
-  | _ :: _ :: "ext" :: r :: w :: _ => some (.ext r.toNat! w.toNat!)
-  | _ :: _ :: "red" :: r :: w :: _ => some (.red r.toNat! w.toNat!)
+  | _ :: _ :: "ext" :: r :: w :: bw :: _ => some (.ext r.toNat! w.toNat! bw.toNat!)
+  | _ :: _ :: "red" :: r :: w :: bw :: _ => some (.red r.toNat! w.toNat! bw.toNat!)
   | _ => none
 
 namespace Gatery.C16
@@ -109,16 +110,16 @@ instance : Inhabited Desc := ⟨.ds⟩
 
 def Desc.name : Desc → String
   | .ds => "ds" | .dsb => "dsb" | .rr => "rr" | .dec => "dec" | .stall => "stall"
-  | .dly n => s!"dly{n}" | .fifo d l ft => s!"fifo{d}/{l}/{if ft then 1 else 0}" | .ext r _ => s!"ext{r}" | .red r _ => s!"red{r}"
+  | .dly n => s!"dly{n}" | .fifo d l ft => s!"fifo{d}/{l}/{if ft then 1 else 0}" | .ext r _ _ => s!"ext{r}" | .red r _ _ => s!"red{r}"
 
 def Desc.kind : Desc → String
   | .ds => "ds" | .dsb => "dsb" | .rr => "rr" | .dec => "dec" | .stall => "stall"
-  | .dly _ => "dly" | .fifo _ _ ft => if ft then "fifo0" else "fifo" | .ext _ _ => "ext" | .red _ _ => "red"
+  | .dly _ => "dly" | .fifo _ _ ft => if ft then "fifo0" else "fifo" | .ext _ _ _ => "ext" | .red _ _ _ => "red"
 
 /-- list specification of a stage -/
 def Desc.spec : Desc → Trans Beat Beat
-  | .ext r w => extSpec r Beat.data (extMk w)
-  | .red r w => redSpec r (redSlice r w)
+  | .ext r w bw => extSpec r extSlot (extMk w bw)
+  | .red r w bw => redSpec r (redSlice r w bw)
   | _ => Trans.idT
 
 def Desc.usesCtl : Desc → Bool
@@ -286,7 +287,7 @@ def endCase (cs : CaseSt) (d : D) : D × List String :=
     let st : StCheck := cs.stages[i0]!
     match blocked with
     | some j =>
-      let later := (List.range n).filter fun i => i > j && (match (cs.descs[i]? : Option Desc) with | some (Desc.red r _) => decide (r > 1) | _ => false)
+      let later := (List.range n).filter fun i => i > j && (match (cs.descs[i]? : Option Desc) with | some (Desc.red r _ _) => decide (r > 1) | _ => false)
       let nxt := match later.head? with | some i => kindAt i | none => kindAt (j+1)
       let sig := s!"undelivered:{kindAt j}>{nxt}"
       { a with d := { a.d with obs := bump a.d.obs sig },
@@ -294,7 +295,12 @@ def endCase (cs : CaseSt) (d : D) : D × List String :=
     | none =>
       a.fail s!"lost:{kindAt i0}" s!"stage={i0} {st.name} all boundaries idle but accepted={st.nin} specified_out={st.expected.size} emitted={st.nout}"
   let d := a.d
-  let hist := cs.descs.foldl (fun h (dsc : Desc) => bump h dsc.kind) d.hist
+  let hist := cs.descs.foldl (fun h (dsc : Desc) =>
+    let h := bump h dsc.kind
+    match dsc with   -- width changers on ByteEnable streams, by ratio
+    | .ext r _ bw => if bw > 0 then bump h s!"ext{r}_be" else h
+    | .red r _ bw => if bw > 0 then bump h s!"red{r}_be" else h
+    | _ => h) d.hist
   ({ d with cases := d.cases + 1, hist := hist, lens := bump d.lens (toString cs.descs.size) }, a.out)
 
 def jsonHist (h : List (String × Nat)) : String :=
